@@ -310,6 +310,9 @@ func init() {
 			if st.kind == "hex" {
 				return tuple{append([]value{}, st.bytes...), iface{}}
 			}
+			if st.kind == "hexodd" {
+				return tuple{[]value(nil), fr.i.mkError("encoding/hex: odd length hex string")}
+			}
 			panic(unsupported("hex.DecodeString of an opaque string"))
 		}
 		return fallThrough{}
@@ -333,3 +336,116 @@ func init() {
 }
 
 var _ = strings.Join
+
+// hexLeadingZeros: how many leading '0' digits the hex text of an abstract hash has.  The bytes of an
+// abstract hash carry no numeric theory, but any hash value may start with zero digits, so the count is a
+// free symbolic quantity per hash (stable: one variable per hash), decided here into 0, 1 or 2 - texts with
+// three or more leading zero digits (1 id in 4096) are outside the model (the path is dropped as assumed away).
+func (i *interpreter) hexLeadingZeros(st symStr, max int) int {
+	if len(st.bytes) == 0 {
+		return 0
+	}
+	ab, ok := st.bytes[0].(absByte)
+	if !ok || ab.pos != 0 {
+		if b, ok := st.bytes[0].(byte); ok {
+			switch {
+			case b == 0:
+				panic(unsupported("hex text starting with a concrete zero byte"))
+			case b < 16:
+				return 1
+			}
+			return 0
+		}
+		panic(unsupported("leading digits of a hex text that does not start at the beginning of a hash"))
+	}
+	v := i.tc.Var(fmt.Sprintf("hexlead!%d", ab.id), SInt)
+	i.assume(i.tc.And(i.tc.Le(i.tc.ConstI(0), v), i.tc.Le(v, i.tc.ConstI(2))), "leading zero digits of a hash text (0..2 modelled)")
+	if max > 2 {
+		max = 2
+	}
+	return int(i.concretize(symInt{v, types.Int}, 0, int64(max), "leading zero digits of a hash text"))
+}
+
+// hexTrimLeftZeros returns the text left after stripping k leading zero digits.
+func (i *interpreter) hexTrimLeftZeros(st symStr, k int) value {
+	switch k {
+	case 0:
+		return st
+	case 2:
+		return hexOfElems(i, st.bytes[1:])
+	}
+	odd := i.newSymStr("hex text with an odd number of digits")
+	odd.kind = "hexodd"
+	odd.bytes = append([]value{}, st.bytes...)
+	return odd
+}
+
+func registerHexTrims() {
+	trimmable := func(cutset string) (zero bool, ok bool) {
+		for _, c := range cutset {
+			switch {
+			case c == '0':
+				zero = true
+			case (c >= '1' && c <= '9') || (c >= 'a' && c <= 'f') || (c >= 'A' && c <= 'F'):
+				return false, false // other hex digits: not modelled
+			}
+		}
+		return zero, true
+	}
+	wrap := func(name string, f func(fr *frame, st symStr, arg string) value) {
+		old := externals[name]
+		externals[name] = func(fr *frame, args []value) value {
+			if st, ok := args[0].(symStr); ok && st.kind == "hex" {
+				if arg, ok := args[1].(string); ok {
+					return f(fr, st, arg)
+				}
+			}
+			return old(fr, args)
+		}
+	}
+	{
+		wrap("strings.TrimLeft", func(fr *frame, st symStr, cutset string) value {
+			zero, ok := trimmable(cutset)
+			if !ok {
+				panic(unsupported("strings.TrimLeft of a hash text with hex digits other than 0 in the cutset"))
+			}
+			if !zero {
+				return st
+			}
+			return fr.i.hexTrimLeftZeros(st, fr.i.hexLeadingZeros(st, 2))
+		})
+		wrap("strings.TrimPrefix", func(fr *frame, st symStr, prefix string) value {
+			switch prefix {
+			case "":
+				return st
+			case "0":
+				return fr.i.hexTrimLeftZeros(st, fr.i.hexLeadingZeros(st, 1))
+			case "00":
+				if fr.i.hexLeadingZeros(st, 2) == 2 {
+					return fr.i.hexTrimLeftZeros(st, 2)
+				}
+				return st
+			}
+			for _, c := range prefix {
+				if !((c >= '0' && c <= '9') || (c >= 'a' && c <= 'f') || (c >= 'A' && c <= 'F')) {
+					return st // a prefix with a non-hex character never matches a hex text
+				}
+			}
+			panic(unsupported("strings.TrimPrefix of a hash text with a hex-digit prefix"))
+		})
+		wrap("strings.HasPrefix", func(fr *frame, st symStr, prefix string) value {
+			switch prefix {
+			case "":
+				return true
+			case "0":
+				return fr.i.hexLeadingZeros(st, 1) >= 1
+			}
+			for _, c := range prefix {
+				if !((c >= '0' && c <= '9') || (c >= 'a' && c <= 'f') || (c >= 'A' && c <= 'F')) {
+					return false
+				}
+			}
+			panic(unsupported("strings.HasPrefix of a hash text with a hex-digit prefix"))
+		})
+	}
+}
